@@ -196,6 +196,11 @@ def run(ctx):
         ctx.check(ok, "C17.3", "%s:measure@%s" % (A.short(g.key), g.loc(b).split(":")[-1]), "recursive call on relative_domain[0 .. len-1] (strictly shorter)",
                   "recursive call argument is %s" % A.show(e[2][1])[:100], g.loc(b))
 
+    # the depth bound of that recursion is the name-length limit: <= 255 octets means <= 127 labels (C16.3, decided here too)
+    from ..core import RuleAlias
+    from . import C16
+    C16.run(RuleAlias(ctx, {"C16.3": "C17.3"}))
+
     # ---------------------------------------------------------------- C17.4
     C19.loader_rules(ctx, "C17.4")
     # the loader and main report, they do not unwrap
